@@ -1,7 +1,7 @@
 (* C16 — recursive macros and includes are cut off with a diagnostic in bounded time. *)
 From Coq Require Import List NArith Bool String.
 Import ListNotations.
-Require Import St Ctl Loop Doc FuelProofs.
+Require Import St Exp Proc1 Proc2 Proc3 Ctl Loop Doc FuelProofs.
 Require PathClean.
 Open Scope string_scope.
 
@@ -29,7 +29,17 @@ Theorem C16_call_beyond_budget_is_refused : forall pb m n l c s, (cdepth c <= 42
   user_macro pb m n l (c, s) =
   (set_budget (xcount c) true c, if process s && negb (xexh c) then err "recursive macro: too many expansions" s else s).
 Proof. exact user_macro_refused. Qed.
+(* files that include themselves or each other: an include line naming a file that is being processed, under any
+   spelling of its path, does not re-enter the loop -- the result is the same for every recursive entry, a diagnostic *)
+Theorem C16_include_cycle_is_refused : forall pb c s o s1 a0 ar name s3 path,
+  parse_opts specOptIncludeFile (args s) s = (o, s1) -> opt "f" o = None -> po_args o = (a0 :: ar)%list ->
+  inlines_text a0 s1 = (name, s3) -> flag "as-is" o = false ->
+  search_inc_file name c = (path, true) ->
+  existsb (str_eqb (PathClean.clean path)) (incstack c) = true ->
+  macro_include pb (c, s) = (c, if process s3 then err "recursive inclusion" s3 else s3).
+Proof. exact include_cycle_is_refused. Qed.
 Print Assumptions C16_nesting_bounded.
+Print Assumptions C16_include_cycle_is_refused.
 Print Assumptions C16_expansions_within_budget.
 Print Assumptions C16_call_beyond_budget_is_refused.
 Print Assumptions C16_fuel_never_decides.
